@@ -7,6 +7,8 @@ import (
 	"bufio"
 	"flag"
 	"fmt"
+	"io"
+	"log"
 	"math/rand"
 	"os"
 )
@@ -29,6 +31,7 @@ func main() {
 		os.Exit(2)
 	}
 	op := os.Args[1]
+	log.SetOutput(io.Discard) // the library logs "problematic URL" lines
 	fs := flag.NewFlagSet(op, flag.ExitOnError)
 	seed := fs.Int64("seed", 1, "PRNG seed")
 	n := fs.Int("n", 100, "number of cases")
@@ -58,6 +61,8 @@ func main() {
 		opWitness(*mix)
 	case "pp":
 		opPP(r, *n, *tier)
+	case "html":
+		opHTML(r, *n, *tier)
 	case "replay":
 		opReplay()
 	default:
